@@ -31,7 +31,10 @@ def dec_node(n):
 
 
 def spec_abs(R, img):
-    r = R.res('abs', bytes(img))
+    try:
+        r = R.res('abs', bytes(img))
+    except lib.Hang:
+        return None, None
     if r[0] != 'ok':
         return None, None
     g = r[1][0]
@@ -41,7 +44,10 @@ def spec_abs(R, img):
 
 
 def spec_wf(R, img):
-    r = R.res('wf', bytes(img))
+    try:
+        r = R.res('wf', bytes(img))
+    except lib.Hang:
+        return [('unreadable', 'the specification reader did not finish on this image (runaway directory structure)')]
     if r[0] != 'ok':
         return [('unreadable', r[1])]
     return [(PROBLEMS.get(c, c), d) for c, d in r[1]]
@@ -78,7 +84,7 @@ def dump_nobodd(fs, read=True):
             with p.open('rb') as f:
                 data = f.read()
         return ('F', name, st.st_size, (st.st_atime, st.st_mtime, st.st_ctime), data)
-    with warnings.catch_warnings():
+    with lib.time_limit(30, 'walking the volume'), warnings.catch_warnings():
         warnings.simplefilter('ignore')
         return walk(fs.root, '')
 
